@@ -51,12 +51,24 @@ def run(ctx):
                               {"stream": "C20-consts", "input": w, "expected": hdr[w], "got": val})
         m = re.match(r"s\(([0-9a-f]*)\)@0", rs.res[0])
         render[w] = zwcorr.unhx(m.group(1)).decode("latin-1") if m else None
+    def family(n):
+        m_ = re.match(r"(DW_[A-Z]+_(GNU_)?|ST[TBV]_|T_)", n)
+        return m_.group(0) if m_ else n
     back = []
+    own = 0
     for w in consts:
         r = render.get(w)
         if r is None:
             continue
         back.append((w, r))
+        # … its own name, unless the headers give that number several names in that family
+        if w in hdr and r != w and not (r in hdr and hdr[r] == hdr[w] and family(r).replace("GNU_", "") == family(w).replace("GNU_", "")):
+            if re.match(r"^[A-Za-z_][A-Za-z0-9_]*$", r) and r in hdr:
+                ctx.violation("constant %s renders as %s, a name of another family" % (w, r),
+                              {"stream": "C20-consts", "input": w, "got": r, "expected": w})
+        else:
+            own += 1
+    ctx.cov["constants_rendering_own_name"] = own
     recs2, _ = h.run_impl_robust(["Q - " + zwcorr.hx("%s %s ?eq" % (r, w)) for w, r in back])
     rt = 0
     for (w, r), rec in zip(back, recs2):
